@@ -22,9 +22,12 @@ import (
 func c07Spec(rng *rand.Rand, i int) (*SessSpec, string) {
 	kinds := []string{"lagging", "uuid-change", "errors", "late-replica", "unassigned", "reopen", "close-waiting", "regress"}
 	kind := kinds[i%len(kinds)]
+	if i%24 == 20 || i%24 == 12 {
+		kind = "map-change"
+	}
 	nodes := 1 + rng.Intn(4)
 	repl := rng.Intn(4)
-	if kind == "late-replica" || kind == "lagging" || kind == "uuid-change" || kind == "errors" {
+	if kind == "late-replica" || kind == "lagging" || kind == "uuid-change" || kind == "errors" || kind == "map-change" {
 		if nodes < 2 {
 			nodes = 2
 		}
@@ -34,8 +37,14 @@ func c07Spec(rng *rand.Rand, i int) (*SessSpec, string) {
 	}
 	sp := &SessSpec{NumVB: 1 + rng.Intn(4), Nodes: nodes, Replicas: repl, AckSeed: rng.Int63(), PNow: 1, Backend: "mem", Backlog: map[int][][]ItemSpec{}, RollbackMitigation: true,
 		RMIntervalMs: 10 + rng.Intn(20), ObserveInit: map[string][2]uint64{}, UnassignedReplicas: map[int][]int{}}
-	o := &HistOpts{NumVB: sp.NumVB, PReserved: 0.05, PSystem: 0.05, PSeqAdv: 0.1, MaxItems: 4}
+	o := &HistOpts{NumVB: sp.NumVB, PReserved: 0.05, PSystem: 0.08, PSeqAdv: 0.3, MaxItems: 4}
 	ctr := 0
+	mcVB := -1
+	if kind == "map-change" {
+		// the gated vBucket starts with replica 1 unassigned; a later cluster map assigns it
+		mcVB = rng.Intn(sp.NumVB)
+		sp.UnassignedReplicas[mcVB] = []int{1}
+	}
 	present := func(vb int) []int { // replica indexes present for vb given the sim's default layout
 		out := []int{0}
 		for r := 1; r <= repl; r++ {
@@ -68,6 +77,9 @@ func c07Spec(rng *rand.Rand, i int) (*SessSpec, string) {
 		sp.Backlog[vb] = append(sp.Backlog[vb], genSnap(rng, o, &ctr), genSnap(rng, o, &ctr))
 	}
 	vb := rng.Intn(sp.NumVB)
+	if mcVB >= 0 {
+		vb = mcVB
+	}
 	sp.GatedVB = vb
 	// only the chosen vBucket is gated: an event waiting in rollback mitigation blocks the DCP connection's
 	// dispatch goroutine, so an uncovered event of ANOTHER vBucket on the same connection would delay this
@@ -140,6 +152,18 @@ func c07Spec(rng *rand.Rand, i int) (*SessSpec, string) {
 		sp.API = true
 		sp.Steps = append(sp.Steps, wr(vb, 3), Step{Op: "barrier"}, Step{Op: "metrics"}, Step{Op: "failover", VB: vb, N: 1 + rng.Intn(9)}, Step{Op: "end", VB: vb, St: 2}, Step{Op: "waitreopen", VB: vb, N: 2},
 			Step{Op: "metrics"}, Step{Op: "append", VB: vb, Items: genSnap(rng, o, &ctr)}, wr(vb, 12), Step{Op: "metrics"})
+	case "map-change":
+		// every copy of the old map is far ahead; the new map (same epoch and higher rev, or a higher epoch whose rev restarts lower)
+		// lists one more copy, which lags: events newer than what that copy reports must wait for it
+		for _, ix := range pr {
+			sp.Steps = append(sp.Steps, Step{Op: "observe", VB: vb, N: ix, Sel: "high"})
+		}
+		sp.Steps = append(sp.Steps, Step{Op: "barrier"}, Step{Op: "mapchange", VB: vb, N: 1, St: uint32(rng.Intn(3)), Sel: []string{"epoch", "rev"}[rng.Intn(2)]},
+			Step{Op: "append", VB: vb, Items: genSnap(rng, o, &ctr)}, Step{Op: "append", VB: vb, Items: genSnap(rng, o, &ctr)})
+		for _, ix := range pr {
+			sp.Steps = append(sp.Steps, obs(vb, ix, 1000, 0))
+		}
+		sp.Steps = append(sp.Steps, wr(vb, 4), obs(vb, 1, 1000, 0))
 	case "close-waiting":
 		for _, ix := range pr {
 			sp.Steps = append(sp.Steps, obs(vb, ix, 1, 0))
@@ -182,9 +206,42 @@ func OracleGate(tr *Trace, kind string) ([]Finding, int, bool) {
 			}
 		}
 	}
+	// a copy assigned by a later cluster map counts for events sent after the client is known to have that map
+	lateCopy := map[[2]int]int64{} // (vb, replica) -> tick from which it is required
+	for _, r := range tr.Log {
+		if r.K == "ctl.mapchange.known" {
+			lateCopy[[2]int{r.VB, int(r.C)}] = r.T
+		}
+	}
+	sentAt := map[[2]uint64]int64{}
+	for vb, segs := range tr.Segs {
+		for _, sg := range segs {
+			for _, it := range sg.Items {
+				if _, ok := sentAt[[2]uint64{uint64(vb), it.Seq}]; !ok {
+					sentAt[[2]uint64{uint64(vb), it.Seq}] = it.T
+				}
+			}
+		}
+	}
+	// what reaches the consumer: deliveries and offset-tracker notifications (absorbed events: seqno-advanced, system events)
+	type reach struct {
+		VB   uint16
+		Seq  uint64
+		T    int64
+		What string
+	}
+	var reaches []reach
+	for _, e := range tr.Events {
+		reaches = append(reaches, reach{e.VB, e.Seq, e.T, "delivered"})
+	}
+	for _, r := range tr.Log {
+		if r.K == "cons.track" {
+			reaches = append(reaches, reach{uint16(r.VB), r.Seq, r.T, "reported to the offset tracker"})
+		}
+	}
 	checked := 0
 	waited := false
-	for _, e := range tr.Events {
+	for _, e := range reaches {
 		vb := int(e.VB)
 		checked++
 		// candidate uuids: those the active copy reported before the delivery
@@ -198,6 +255,9 @@ func OracleGate(tr *Trace, kind string) ([]Finding, int, bool) {
 		for u := range uuids {
 			all := true
 			for _, ix := range present[vb] {
+				if from, late := lateCopy[[2]int{vb, ix}]; late && sentAt[[2]uint64{uint64(vb), e.Seq}] < from {
+					continue // sent before the client had the map listing this copy
+				}
 				cov := false
 				for _, rp := range replies[[2]int{vb, ix}] {
 					if rp.t < e.T && rp.uuid == u && rp.persist >= e.Seq {
@@ -233,7 +293,7 @@ func OracleGate(tr *Trace, kind string) ([]Finding, int, bool) {
 					shape = "copy-never-reported"
 				}
 			}
-			fs = append(fs, Finding{"C07", "gate", "C07/gate/" + shape, fmt.Sprintf("vb %d seq %d delivered at tick %d although not every copy had reported, under one vbUUID, a persisted seqno >= %d (latest replies before the delivery: %v)", vb, e.Seq, e.T, e.Seq, st)})
+			fs = append(fs, Finding{"C07", "gate", "C07/gate/" + shape, fmt.Sprintf("vb %d seq %d %s at tick %d although not every copy had reported, under one vbUUID, a persisted seqno >= %d (latest replies before that: %v)", vb, e.Seq, e.What, e.T, e.Seq, st)})
 			break
 		}
 	}
